@@ -517,3 +517,40 @@ def units_C08(tier, seed):
         U += unit(f'c08_pair_{a}_{bb}', 'c06_io.cpp', f'pair_h<{a},{bb},1>()', sites=[1], flavours=('rel', 'dbg') if a == 3 else ('rel',),
                   diff=(a == 3 and bb == 40))
     return U
+
+
+# ------------------------------------------------------------------------------------------------ C12
+INFO['C12'] = {
+    'bounds': 'field types strided<size2,array<float1>>, morton<size2,array<float1>,portable>, affine<linear<strided<...>>>; '
+              'inductive step: pre-state = 2 slots (quick) / 3 slots (thorough), each empty / live / moved-from, live fields built '
+              'through the API with extents in {1,2}^2 (storage <= 4 cells) and symbolic contents; ONE operation with symbolic slot '
+              'arguments (aliasing allowed): copy-construct, move-construct, copy-assign (incl. self), move-assign, write through a '
+              'view, destroy, converting copy through the other layout, dump/load; post: every live slot equals its plain-array model at '
+              'every coordinate, live buffers pairwise distinct, live heap objects == live slots, teardown frees everything; engine VCs: '
+              'no double free, no use after free, no mismatched delete. Bounded histories from empty slots with symbolic operation '
+              'choice: length 2 (quick) / 3 (thorough)',
+    'outside': 'storage above 4 cells, more than 3 slots; histories longer than the bound are covered by the inductive step (stated)',
+    'cuts': 'none',
+    'assumptions': ['the pre-state generator reaches every state the API can build within the size bound, so one step covers histories of any length (induction, stated)',
+                    'moved-from slots only admit destroy and assign-to'],
+}
+
+
+def units_C12(tier, seed):
+    th = tier == 'thorough'
+    U = []
+    H = 'c12_history.cpp'
+    ns = 3 if th else 2
+    opn = ['copyc', 'movec', 'copya', 'movea', 'write', 'destroy', 'convert', 'dumpload']
+    for t in (0, 1, 2):
+        for op in range(8):
+            if not th and t == 1 and op in (4, 5):
+                continue
+            fl = ('rel', 'san') if (op in (2, 3) or th) else ('rel',)
+            U += unit(f'c12_step_{opn[op]}_t{t}', H, f'step_h<{t},{op},{ns}>()', sites=[1, 2, 4, 90], flavours=fl,
+                      diff=(t == 0 and op in (2, 6)), weight=100 if th else 10, cfg={'max_paths': 200000, 'max_traces': 3}, timeout=3000)
+    for t in (0, 2) if not th else (0, 1, 2):
+        ln = 3 if th else 2
+        U += unit(f'c12_hist_{ln}_t{t}', H, f'hist_h<{t},{ln},2>()', sites=[11, 12, 14, 90], diff=(t == 0), weight=1000,
+                  cfg={'max_paths': 400000, 'max_traces': 3}, timeout=6000)
+    return U
